@@ -330,6 +330,10 @@ EXACT_CASES = {
     "overlapping-events": (((-1.0, 2.0), (0.5, 3.0)), (0.25, 1.5), (1.0, 2.0), "g1"),
     "overlapping-events-reversed": (((-1.0, 2.0), (0.5, 3.0)), (0.25, 1.5), (1.0, 2.0), "1g"),
     "per-scenario-event-negative": (((-3.0, -0.5), (-1.0, 0.0)), None, (-0.75, -0.25), "g1"),
+    # the E-constraint carries its OWN ambiguity set (other supports per scenario, declared through forall): the objective and the
+    # plain constraint are judged over the first set, the E-constraint over the vertices of the second set's box of means
+    "own-set-on-the-expectation-constraint": (((-1.0, 2.0), (0.5, 3.0)), (0.25, 1.5), None, "g1", ((0.0, 3.0), (2.0, 5.0))),
+    "own-set-on-the-expectation-constraint-narrower": (((-1.0, 2.0), (0.5, 3.0)), None, (1.0, 2.0), "g1", ((0.0, 0.5), (1.0, 1.25))),
 }
 
 
@@ -342,7 +346,8 @@ def exact_affine(case, adapt):
     Independent of the library's dual of the lifted set."""
     from ..spec import proj
     from ..sym import ctx
-    sup, gev, ev1, order = EXACT_CASES[case]
+    sup, gev, ev1, order = EXACT_CASES[case][:4]
+    sup2 = EXACT_CASES[case][4] if len(EXACT_CASES[case]) > 4 else None
     G, h = [], []
     for s in range(2):
         e = [0.0, 0.0]
@@ -356,6 +361,7 @@ def exact_affine(case, adapt):
         G += [[0.0, 1.0], [0.0, -1.0]]
         h += [ev1[1], -ev1[0]]
     V = _polygon_vertices(np.array(G), np.array(h))
+    V2 = [(a, b) for a in sup2[0] for b in sup2[1]] if sup2 else V
     cost = np.array([1.5, -2.0])
 
     def setup(c):
@@ -374,7 +380,14 @@ def exact_affine(case, adapt):
         if adapt:
             x.adapt(1)
         m.minsup(rsome.E((x[0] - 0.5 * x[1] + 0.5) * z + cost @ x), fs)
-        m.st(rsome.E(x[1] * z - x[0]) <= 1.0)
+        if sup2:
+            gs = m.ambiguity()
+            for s in range(2):
+                gs[s].suppset(z >= sup2[s][0], z <= sup2[s][1])
+            gs.probset(m.p == 0.5)
+            m.st((rsome.E(x[1] * z - x[0]) <= 1.0).forall(gs))
+        else:
+            m.st(rsome.E(x[1] * z - x[0]) <= 1.0)
         m.st(x[0] * z + x[1] <= 4.0)
         m.st(x <= 3, x >= -3)
         F = m.do_math()
@@ -395,6 +408,7 @@ def exact_affine(case, adapt):
         for v in V:
             obj = sum((0.5 * ((xs[s][0] - 0.5 * xs[s][1] + 0.5) * v[s] + cost[0] * xs[s][0] + cost[1] * xs[s][1]) for s in range(2)), 0.0)
             rows.append(p_le(obj, t))
+        for v in V2:
             rows.append(p_le(sum((0.5 * (xs[s][1] * v[s] - xs[s][0]) for s in range(2)), 0.0), 1.0))
         for s in range(2):
             for end in sup[s]:
